@@ -215,6 +215,7 @@ fn tag_dec_s(big: bool, bs: &[u8]) -> String {
 
 fn main() {
     silence_panics();
+    install_logger(); // every log line of the library is evaluated and formatted, as under RUST_LOG=trace
     run_cases(|f, emit| match f[0] {
         // p_enc <enc> <prim> <value>      p_dec <enc> <prim> <hex>
         "p_enc" => emit(p_enc_s(f[1], f[2], f[3])),
